@@ -5,7 +5,7 @@
    without effect; and over ALL reachable states: a blocked call whose context is cancelled returns after
    at most four steps of its own waiter and itself, with a zero value and a non-nil error when no
    response had reached its waiter. *)
-From Verif Require Import Base Link LinkProofs LinkInv16 LinkInvB LinkInvT LinkProgress.
+From Verif Require Import Base Link LinkProofs LinkInv16 LinkInvB LinkInvT LinkProgress LinkHealthy.
 
 Theorem cancel_frame :
   forall calls s c,
@@ -76,3 +76,21 @@ Theorem cancelled_call_returns_from_anywhere :
                       tget (threads s') (TCall i) = Some (CReturned v e).
 Proof. exact cancelled_started_call_returns_lemma. Qed.
 Print Assumptions cancelled_call_returns_from_anywhere.
+
+(* "The link stays healthy": cancelling per-call contexts (any number, at any time) is a benign
+   choice of the environment, and in every benign run the link is up, nothing was reported and Link
+   has not returned (LinkHealthy.v; the witness run in Props/C16.v cancels a call and then delivers
+   the late response, which is discarded) *)
+Theorem call_cancellation_is_benign :
+  forall c, c <> 0%N -> benign (Env (ECancel c)) = true.
+Proof. intros c Hc. simpl. destruct c; [contradiction|reflexivity]. Qed.
+Print Assumptions call_cancellation_is_benign.
+
+Theorem link_stays_up_under_call_cancellation :
+  forall calls cs s,
+    lrun fixed calls linit cs = Some s -> forallb (fun c => benign (fst c)) cs = true ->
+    bclosed s = false /\ fatal s = None /\
+    (forall e, ~ In (EvReport e) (evs s)) /\ (forall e, ~ In (EvLinkReturn e) (evs s)) /\
+    (tget (threads s) TLink = Some LBeforeRead \/ tget (threads s) TLink = Some LWaiting).
+Proof. exact healthy_link_stays_up_lemma. Qed.
+Print Assumptions link_stays_up_under_call_cancellation.
